@@ -64,6 +64,59 @@ theorem C17_midpoints_go_away_from_zero (k : Nat) :
     have : ((k : Int) : Rat) + 1/2 - ((k : Int) : Rat) ≥ 1/2 := by grind
     simp [this]
 
+/-! ### amounts in other currencies (transaction echoes): rounded to the currency's minor units -/
+
+theorem C17_minorUnits_is_roundHalfAway (k : Nat) (x : Rat) :
+    ((minorUnits k x : Int) : Rat) / pow10 k = roundHalfAway k x := by
+  unfold minorUnits roundHalfAway
+  simp only
+  split <;> split <;> simp [Rat.intCast_neg]
+
+/-- a foreign-currency figure is within half a minor unit of the amount, for every exponent -/
+theorem C17_foreign_value_is_close (k : Nat) (x : Rat) :
+    rabs (((minorUnits k x : Int) : Rat) / pow10 k - x) ≤ 1 / (2 * pow10 k) := by
+  rw [C17_minorUnits_is_roundHalfAway]; exact roundHalfAway_close k x
+
+/-- pence are the k = 2 case: one rounding rule for every currency -/
+theorem C17_pence_is_minorUnits (x : Rat) : pence x = minorUnits 2 x := by
+  unfold pence minorUnits pow10
+  have h100 : (((10 ^ 2 : Nat) : Nat) : Rat) = 100 := by norm_cast
+  rw [h100]
+
+/-- midpoints of any currency go away from zero: n + ½ units → n + 1 units, and symmetrically -/
+theorem C17_foreign_midpoints_away (k : Nat) (n : Nat) :
+    minorUnits k ((((n : Int) : Rat) + 1/2) / pow10 k) = n + 1 ∧
+    minorUnits k (-((((n : Int) : Rat) + 1/2) / pow10 k)) = -((n : Int) + 1) := by
+  have hP := pow10_pos k
+  have hPne : pow10 k ≠ 0 := by grind
+  have hn : (0 : Rat) ≤ ((n : Int) : Rat) := by exact_mod_cast Int.natCast_nonneg n
+  have e1 : ((((n : Int) : Rat) + 1/2) / pow10 k) * pow10 k = ((n : Int) : Rat) + 1/2 := by
+    rw [Rat.div_mul_cancel hPne]
+  have e2 : (-((((n : Int) : Rat) + 1/2) / pow10 k)) * pow10 k = -(((n : Int) : Rat) + 1/2) := by
+    rw [Rat.neg_mul, e1]
+  have hq : 0 < (((n : Int) : Rat) + 1/2) / pow10 k := by
+    rw [Rat.div_def]; exact Rat.mul_pos (by grind) (Rat.inv_pos.mpr hP)
+  have hpos : ¬ ((((n : Int) : Rat) + 1/2) / pow10 k < 0) := by grind
+  have hneg : (-((((n : Int) : Rat) + 1/2) / pow10 k) < 0) := by grind
+  constructor
+  · unfold minorUnits
+    simp only [e1, hpos, if_false]
+    have ha : rabs (((n : Int) : Rat) + 1/2) = ((n : Int) : Rat) + 1/2 := by unfold rabs; split <;> grind
+    rw [ha, floor_int_add_half]
+    have : ((n : Int) : Rat) + 1/2 - ((n : Int) : Rat) ≥ 1/2 := by grind
+    simp [this]
+  · unfold minorUnits
+    simp only [e2, hneg, if_true]
+    have ha : rabs (-(((n : Int) : Rat) + 1/2)) = ((n : Int) : Rat) + 1/2 := by unfold rabs; split <;> grind
+    rw [ha, floor_int_add_half]
+    have : ((n : Int) : Rat) + 1/2 - ((n : Int) : Rat) ≥ 1/2 := by grind
+    simp [this]
+
+example : fmtCurrencyAmount "USD" 2 (12345/1000) = "12.35 USD" := by decide +kernel
+example : fmtCurrencyAmount "JPY" 0 (201/2) = "101 JPY" := by decide +kernel
+example : fmtCurrencyAmount "KWD" 3 (-20125/10000) = "-2.013 KWD" := by decide +kernel
+example : fmtCurrencyAmount "GBP" 2 (1/8) = "£0.13" := by decide +kernel
+
 /-- the two rounding sites the front-ends use agree (extracted constants) -/
 theorem C17_json_and_text_round_alike :
     jsonMoneyHalfAway = displayMoneyHalfAway ∧ jsonMoneyDp = displayMoneyDp ∧ displayMoneyHalfAway = true ∧ displayMoneyDp = 2 := by
